@@ -112,12 +112,25 @@ int main(int argc, char** argv) {
     }
     R.bound_done("aliases x placements; compatibility options");
     // malformed values for every typed option on both sources
-    for (size_t i = 0; i < NOPTS; i++) for (const char* bad : {"abc", "1e", "1,5", "", "0x"}) for (int src = 0; src < 2; src++) {
+    for (size_t i = 0; i < NOPTS; i++) for (const char* bad : {"abc", "1e", "1,5", "", "0x", "64abc", "1.5x", "1..2", "3 4", "32.5", "1e3", "0x40", "-1", "maybe", "2"}) for (int src = 0; src < 2; src++) {
         const Opt& o = OPTS[i]; if (o.type == 's') continue;
         if (std::string(bad).empty() && o.type == 'b') continue;   // an empty value is boost's notation for a switch given without value
+        {   // tokens that are malformed only for some types: fractions / exponents / hexadecimal for integers, a sign for unsigned, non-boolean words and numbers for switches
+            const std::string b = bad; const bool integer = o.type == 'u' || o.type == 'i' || o.type == 'l', real = o.type == 'f' || o.type == 'd' || o.type == 'v';
+            if ((b == "32.5" || b == "1e3") && !integer) continue;
+            if (b == "0x40" && !integer && !real) continue;
+            if (b == "-1" && o.type != 'u') continue;
+            if ((b == "maybe" || b == "2") && o.type != 'b') continue;
+            if ((b == "64abc" || b == "1.5x" || b == "1..2") && o.type == 'b') continue;
+            if (b == "3 4" && (o.type == 'v' || o.type == 'b' || src == 1)) continue;   // two tokens: legal for a list; in a file the line is one token and covered by the others
+        }
         std::string kase = std::string("malformed ") + o.name + " value='" + bad + "' src=" + (src ? "cfg" : "cli");
         if (!R.mine(kase)) continue;
-        if (src == 0) expect_error(kase, "C20/malformed/cli", {{o.name, bad}}, {}); else expect_error(kase, "C20/malformed/cfg", {}, {}, {std::string(o.name) + "=" + bad});
+        const std::string bs = bad;
+        const std::string cls = bs == "-1" ? "sign-for-unsigned" : (bs == "64abc" || bs == "1.5x" || bs == "1e" || bs == "0x") ? "number-then-garbage" : (bs == "32.5" || bs == "1e3") ? "fraction-or-exponent-for-integer"
+                              : bs == "0x40" ? "hexadecimal" : (bs == "maybe" || bs == "2") ? "not-a-boolean" : bs.empty() ? "empty" : (bs == "1,5" || bs == "1..2" || bs == "3 4") ? "two-numbers" : "word";
+        const std::string keyb = std::string("C20/malformed/") + (src ? "cfg/" : "cli/") + cls;
+        if (src == 0) expect_error(kase, keyb, {{o.name, bad}}, {}); else expect_error(kase, keyb, {}, {}, {std::string(o.name) + "=" + bad});
     }
     // unknown names on both sources
     for (const char* nm : {"NoSuchOption", "gridsize", "Alpha0", "x"}) for (int src = 0; src < 2; src++) {
